@@ -66,6 +66,26 @@ func init() {
 		return map[string]string{"err": ""}, nil
 	}
 
+	// c19.storeof {uuid, name} -> {"store": "<String() of the store the instance is assigned to>"}
+	APIs["c19.storeof"] = func(args json.RawMessage) (interface{}, error) {
+		var a struct {
+			UUID string `json:"uuid"`
+			Name string `json:"name"`
+		}
+		if err := json.Unmarshal(args, &a); err != nil {
+			return nil, err
+		}
+		data, err := datastore.GetDataByUUIDName(dvid.UUID(a.UUID), dvid.InstanceName(a.Name))
+		if err != nil {
+			return nil, err
+		}
+		st, err := data.KVStore()
+		if err != nil {
+			return nil, err
+		}
+		return map[string]string{"store": fmt.Sprint(st)}, nil
+	}
+
 	APIs["c19.rawentries"] = func(args json.RawMessage) (interface{}, error) {
 		var a struct {
 			UUID string `json:"uuid"`
